@@ -257,7 +257,7 @@ func run(c *vf.Ctx) {
 		}
 		spn := chain.Spec(n)
 		m := &chain.Model{Name: "union-leafkey", Spec: spn, Menu: unionMenu, Opt: opt, LeafKey: true,
-			H: vf.Pick[uint64](c, 7, 9), D: vf.Pick(c, 3, 3), K: vf.Pick(c, 1, 2), R: vf.Pick(c, 2, 2)}
+			H: vf.Pick[uint64](c, 7, 9), D: vf.Pick(c, 3, 3), K: vf.Pick(c, 1, 1), R: vf.Pick(c, 2, 2)}
 		if spn.Name == "mixed" {
 			m.SkipStart = 3
 			m.H += 3
@@ -265,6 +265,22 @@ func run(c *vf.Ctx) {
 		x := chain.NewExplorer(c, m, "C05")
 		x.Run()
 		x.Report(n + "/")
+		if !c.Expired() {
+			// block combinatorics: one setup block, then every ordered tuple of <= 3 actions in one block; every such
+			// block is also reverted (proofs of all tracked elements are checked after the apply and after the revert)
+			mc := *m
+			mc.Name, mc.Menu, mc.D, mc.K, mc.R, mc.H, mc.StopWhenSpent = "combo", chain.ComboMenu, 2, 3, 0, m.H-1, true
+			mc.OnTransition = func(x *chain.Explorer, prev, w *chain.World, path []string) {
+				nw := w.Clone()
+				if p := nw.Revert(); p != nil {
+					x.Violate(p.Sig, p.Desc, append(append([]string(nil), path...), "revert(1)"))
+				}
+				c.Count("combo_blocks_reverted", 1)
+			}
+			xc := chain.NewExplorer(c, &mc, "C05")
+			xc.Run()
+			xc.Report(n + "/combo/")
+		}
 	}
 	c.Sample(accCase{M: 12, S: []int{3, 11}, Outs: 5, S2: []int{14, 15}, Outs2: 3, Seed: c.Seed, Stage: "example"})
 	c.RequireFeature("reverts", "proofs_checked", "feature:v1_fc_revise", "feature:v2_fc_revise", "feature:v2_attestation", "feature:v1_fc_expire", "feature:revert_depth_2")
